@@ -18,11 +18,14 @@ ALPHABET = set(string.ascii_letters + string.digits + "/-+*_().'~")
 def split_pattern(pat: str):
     """-> [lit0, field1, lit1, field2, lit2] for a valid two-placeholder pattern."""
     parts = list(string.Formatter().parse(pat))
-    lits, fields = [], []
+    lits, fields, cur = [], [], ""
     for lit, fld, spec, conv in parts:
-        lits.append(lit)
+        cur += lit                      # escaped braces ({{ and }}) arrive as literal chunks of their own
         if fld is not None:
+            lits.append(cur)
+            cur = ""
             fields.append(fld)
+    lits.append(cur)
     if len(fields) != 2 or set(fields) != {"mother", "daughters"}:
         raise ValueError(f"not a two-placeholder pattern: {pat!r}")
     while len(lits) < 3:
